@@ -13,6 +13,7 @@
 #include <set>
 #include <map>
 #include <functional>
+#include <optional>
 #include <stdexcept>
 #include <chrono>
 #include <unistd.h>
@@ -153,6 +154,17 @@ struct InstResult {
 		return o;
 	}
 };
+
+// Violations detected where throwing is impossible (destructors, noexcept paths) are parked here
+// and raised by the engine right after the operation returns.
+inline std::optional<Violation> &pending() { static std::optional<Violation> p; return p; }
+inline void note(const std::string &prop, const std::string &sig, const std::string &msg) {
+	if(!pending()) pending() = Violation{prop, sig, msg};
+}
+inline void raise_pending() {
+	if(pending()) { Violation v = *pending(); pending().reset(); throw v; }
+}
+
 
 // Global deadline for this process (seconds since steady epoch); 0 = none.
 inline double &deadline() { static double d = 0; return d; }
